@@ -258,11 +258,11 @@ func transform(path, rel string, src []byte, simsyncPath string, r1, r2, r3, r5 
 		switch x := n.(type) {
 		case *ast.SelectorExpr:
 			if r1 && syncName != "" {
-				for _, typ := range []string{"Mutex", "RWMutex"} {
+				for _, typ := range []string{"Mutex", "RWMutex", "Once"} {
 					if s, ok := isSel(x, syncName, typ); ok {
 						edits = append(edits, edit{off(s.X.Pos()), len(syncName), "simsync"})
 						needSimsync = true
-						keep[syncName] = "var _ %s.Once"
+						keep[syncName] = "var _ %s.WaitGroup"
 						hits["R1."+typ]++
 					}
 				}
